@@ -54,6 +54,7 @@ type inboundRun struct {
 	lostAcks int
 	storeErr int
 	competed int
+	bigCuts  int
 	viol     bool
 }
 
@@ -167,9 +168,28 @@ func runInbound(c *run.Ctx, ip inboundParams) *inboundRun {
 				size = bufSize + c.Rng.Intn(bufSize)
 			}
 			m := &inMsg{N: n, QoS: qos, Topic: inTopic(n, qos), Payload: sim.MarkerPayload(n, size)}
+			var before int
+			cn := w.Cur()
+			if cn != nil {
+				before = cn.InLen()
+			}
 			m.Out = w.Broker.Publish(m.Topic, m.Payload, qos, false)
 			m.SentSeq = w.Now()
 			ir.msgs = append(ir.msgs, m)
+			if size >= bufSize && cn != nil && c.Rng.Float64() < ip.PBreak*4 {
+				// the connection dies inside the payload, beyond what the read buffer
+				// takes: the message comes out as a BigMessage that can not be had in full
+				if after := cn.InLen(); after-before > bufSize+8 {
+					cut := before + bufSize + 8 + c.Rng.Intn(after-before-bufSize-8)
+					if c.Rng.Intn(2) == 0 {
+						cn.EndInbound(cut, io.EOF)
+					} else {
+						cn.EndInbound(cut, &netReset{})
+					}
+					ir.breaks++
+					ir.bigCuts++
+				}
+			}
 		case r < 0.75:
 			if !ir.step() {
 				break
@@ -542,7 +562,10 @@ func checkC04(ir *inboundRun) (dupsSeen int) {
 					continue
 				}
 				nx := ir.allReads[j+1]
-				if nx.Gen == prev.gen && !(nx.R.Err != nil && errors.Is(nx.R.Err, sim.ErrStore)) {
+				// (an invocation that came back with an error may have failed before it
+				// got to save the marker, e.g. while skipping the rest of a big payload;
+				// the marker Save itself is judged below)
+				if nx.Gen == prev.gen && (nx.R.Err == nil || nx.R.Big) {
 					c.Violate("returned-again-after-ownership-and-restart", fmt.Sprintf("message %d (identifier %#04x) was returned at #%d, the next ReadSlices came back at #%d (ownership taken), yet after a restart it was returned again at #%d", n, m.Out.ID, prev.seq, nx.R.Seq, cur.seq), map[string]any{"trace_tail": ir.W.TraceTail(traceN(ir.c))})
 				}
 			}
@@ -605,6 +628,7 @@ func init() {
 			c.Count("messages_sent_by_broker", len(ir.msgs))
 			c.Count("competing_requests", ir.competed)
 			c.Count("connection_breaks", ir.breaks)
+			c.Count("breaks_inside_a_big_payload", ir.bigCuts)
 			c.Count("acknowledgements_lost", ir.lostAcks)
 			c.Count("restarts", ir.restarts)
 			if pauses > 0 && ir.competed+ir.breaks+ir.lostAcks+ir.restarts > 0 {
